@@ -203,8 +203,12 @@ def _run(pid, cfg, tier, seed, repo, work, t0):
 
     known = [k for k in load_known() if k.get("property") == pid and k.get("status") == "open"]
     violations, known_hit = [], []
+    seen_keys = set()
     for (u, f) in mine:
         key = "%s:%s/%s" % (u, f.fn, f.label)
+        if key in seen_keys:
+            continue
+        seen_keys.add(key)
         kf = [k for k in known if k.get("obligation") == key]
         if kf:
             known_hit.append((kf[0], f))
